@@ -382,6 +382,23 @@ def gen_C04(tier, rng):
             c.q("equiv %d %d" % (x, y)); c.q("implied %d %d" % (x, y)); c.q("implied %d %d" % (y, x))
         dist["three_var"] += 1
         cases.append(c.done("%s:%s|%s" % ("".join(vs), tf, tg), True))
+    # operands obtained through arbitrary operation sequences (the property's quantifier says so): random programs as in
+    # C15, then comparisons between registers of the same representation, and of each register with itself
+    for k_ in range(400 if tier == "quick" else 4000):
+        c = Case("c04_h%d" % k_)
+        names = gen.NAMES[: rng.randint(3, 5)]
+        kinds = random_program(rng, c, rng.randint(6, 16), names, allow_tb=False)
+        # drop the observation lines of the program part? they are cheap; keep them (they also localise a failure)
+        byk = collections.defaultdict(list)
+        for i_, kk in enumerate(kinds): byk[kk].append(i_)
+        for kk, regs_ in byk.items():
+            pairs = [(x, y) for x in regs_ for y in regs_ if x < y]
+            rng.shuffle(pairs)
+            for x, y in pairs[:6]:
+                c.q("equiv %d %d" % (x, y)); c.q("implied %d %d" % (x, y)); c.q("implied %d %d" % (y, x))
+            for x in regs_[-3:]: c.q("equiv %d %d" % (x, x))
+        dist["after_operation_sequences"] += 1
+        cases.append(c.done("hist%d" % k_, True))
     # wide pairs (7-9 inputs): equal functions in different shapes, a strengthening / weakening, different input sets
     for nv in ([7, 8, 9] if tier == "quick" else [7, 8, 9, 10, 11]):
         for rep in range(3 if tier == "quick" else 8):
@@ -396,7 +413,7 @@ def gen_C04(tier, rng):
             dist["wide%d" % nv] += 1
             cases.append(c.done("wide%d/%d" % (nv, rep), True))
     return {"cases": cases, "exhaustive": tier != "quick", "dist": dict(dist),
-            "rule": "ordered pairs of truth functions of <= 2 variables under every alignment in a 3-name universe (quick: every second pair plus all pairs with equal vectors), each operand also obtained through an identity history (restrict {}, & true, double negation, round trip through another representation, exists {foreign}); is_equivalent / is_implied_by / semantic_eq in three representations; sampled 3-variable pairs; wide pairs of 7-9 (11) inputs (same / stronger / weaker / unrelated); the evidence counts equal / implied / neither outcomes; non-trivial = different input sets"}
+            "rule": "ordered pairs of truth functions of <= 2 variables under every alignment in a 3-name universe (quick: every second pair plus all pairs with equal vectors), each operand also obtained through an identity history (restrict {}, & true, double negation, round trip through another representation, exists {foreign}); is_equivalent / is_implied_by / semantic_eq in three representations; sampled 3-variable pairs; operands produced by random programs of 5-14 operations (connectives, restriction, quantifiers, substitution, conversions) compared pairwise; wide pairs of 7-9 (11) inputs (same / stronger / weaker / unrelated); the evidence counts equal / implied / neither outcomes; non-trivial = different input sets"}
 
 
 def diff_expand(ins, tv, union):
@@ -539,7 +556,7 @@ def gen_C08(tier, rng):
             regs = three_reps(c, f)
             gregs = []
             for k in keys:
-                pool_ = rng.sample(["p", "q"], rng.randint(1, 2)) + rng.sample(nonkeys, min(len(nonkeys), rng.randint(0, 2)))
+                pool_ = rng.sample(["0p", "q"], rng.randint(1, 2)) + rng.sample(nonkeys, min(len(nonkeys), rng.randint(0, 2)))
                 g = gen.rand_tree(rng, rng.randint(0, 2), pool_, max_arity=2, consts=(rng.random() < 0.2), empties=False)
                 gregs.append(three_reps(c, g))
             for i, r in enumerate(regs):
@@ -573,6 +590,15 @@ def gen_enum(prefix, tier, rng, maxv, pads):
             from .diff import expand
             ess = [x for i, x in enumerate(vs) if any(tv[j] != tv[j ^ (1 << (nv - 1 - i))] for j in range(1 << nv))]
             cases.append(c.done("%d/%s" % (nv, tv), len(ess) < nv or pads))
+    # objects that are the RESULT of operations (restriction, quantifiers, substitution, connectives on different input
+    # sets, conversions), not only freshly built ones: random programs as in C15, every register enumerated at the end
+    for k_ in range(200 if tier == "quick" else 2500):
+        c = Case("%s_h%d" % (prefix, k_))
+        names = gen.NAMES[: rng.randint(3, 5)]
+        kinds = random_program(rng, c, rng.randint(5, 14), names, allow_tb=False)
+        for i_ in range(len(kinds)): c.q("enum %d" % i_)
+        dist["derived_objects"] = dist.get("derived_objects", 0) + 1
+        cases.append(c.done("hist%d" % k_, True))
     return cases, dict(dist)
 
 
@@ -767,7 +793,7 @@ def random_program(rng, c, length, names, allow_tb=True):
             ks = rng.sample(names + ["zz"], rng.randint(1, min(3, len(names) + 1)))
             if rng.random() < 0.4:
                 # replacements over variables the target does not have, shared between the replacements
-                fresh_names = ["p", "q", "r"]
+                fresh_names = ["0p", "cq", "r"]     # sorting before, between and after the plain names
                 m = []
                 for k in sorted(ks):
                     e = gen.rand_tree(rng, rng.randint(1, 2), rng.sample(fresh_names, 2) + ([rng.choice(names)] if rng.random() < 0.3 else []), max_arity=2, consts=False, empties=False)
@@ -819,7 +845,7 @@ def gen_C15(tier, rng):
         nonkeys = [x for x in vs if x not in keys]
         m = []
         for k in keys:
-            pool_ = rng.sample(["p", "q", "r"], 2) + (rng.sample(nonkeys, 1) if nonkeys and rng.random() < 0.4 else [])
+            pool_ = rng.sample(["0p", "cq", "r"], 2) + (rng.sample(nonkeys, 1) if nonkeys and rng.random() < 0.4 else [])
             if kind_ != "B" and rng.random() < 0.3: pool_.append(rng.choice(keys))   # mentioning keys is refused by diagrams only
             e = gen.rand_tree(rng, rng.randint(0, 2), pool_, max_arity=2, consts=False, empties=False)
             j = c.r("expr " + pe(e))
@@ -830,7 +856,7 @@ def gen_C15(tier, rng):
         if kind_ != "E": c.q("fresh %d" % k_)
         k2 = c.r("op2 %s %s %d %d" % (rng.choice(["and", "or", "xor"]), rng.choice(FORMS), k_, r0)); c.q("obs %d" % k2)
         if kind_ != "E": c.q("fresh %d" % k2)
-        k3 = c.r("restrict %d %s" % (k_, val_tokens([(rng.choice(["p", "q", "r"]), rng.random() < 0.5)]))); c.q("obs %d" % k3)
+        k3 = c.r("restrict %d %s" % (k_, val_tokens([(rng.choice(["0p", "cq", "r"]), rng.random() < 0.5)]))); c.q("obs %d" % k3)
         k4 = c.r("conv %s %d" % (rng.choice([t for t in "ET" if t != kind_] or ["E"]), k_)); c.q("obs %d" % k4)
         dist["substitution_program"] += 1
         cases.append(c.done("subst%d" % n, True))
@@ -1188,6 +1214,21 @@ def gen_C17(tier, rng):
             for _ in range(2): c.q("csvout %d %s %s" % (t, rng.choice(FMT), rng.choice(FMT)))
             dist["wide%d" % nv] += 1
             cases.append(c.done("wide%d/%d" % (nv, rep), True))
+    # tables that are the result of operations (restriction of several variables, quantifiers, substitution, connectives)
+    for k_ in range(60 if tier == "quick" else 600):
+        c = Case("c17_h%d" % k_)
+        nv = rng.randint(3, 5); vs = gen.NAMES[:nv]
+        t0 = table_regs(c, vs, "".join(rng.choice("01") for _ in range(1 << nv)))
+        t1 = table_regs(c, rng.sample(gen.NAMES[:6], 2), "".join(rng.choice("01") for _ in range(4)))
+        derived = [c.r("restrict %d %s" % (t0, val_tokens([(x, rng.random() < 0.5) for x in rng.sample(vs, rng.randint(1, nv))] + ([("zz", True)] if rng.random() < 0.3 else [])))),
+                   c.r("%s %d %s" % (rng.choice(["exists", "forall", "deriv"]), t0, set_tokens(sorted(rng.sample(vs, rng.randint(1, 2)))))),
+                   c.r("op2 %s %s %d %d" % (rng.choice(["and", "or", "xor"]), rng.choice(FORMS), t0, t1)),
+                   c.r("subst %d 1 %s %d" % (t0, hexname(rng.choice(vs)), t1))]
+        derived.append(c.r("restrict %d %s" % (derived[2], val_tokens([(x, rng.random() < 0.5) for x in rng.sample(vs, 2)]))))
+        for t in derived:
+            c.q("csvdef %d" % t); c.q("csvout %d %s %s" % (t, rng.choice(FMT), rng.choice(FMT)))
+        dist["derived_tables"] += 1
+        cases.append(c.done("hist%d" % k_, True))
     c = Case("c17_empty"); t = c.r("csvin str -"); c.q("csvout %d W K" % t); c.q("csvdef %d" % t); c.q("obs %d" % t)
     cases.append(c.done("empty", True)); dist["empty_table"] += 1
     for ns in (["a,b"], ['a"b'], ['"ab"'], ["a\nb"], [" a "], ["﻿a"], ["0"], ["1", "true"]):
@@ -1197,7 +1238,7 @@ def gen_C17(tier, rng):
             dist["unsafe_names_modelonly"] += 1
             cases.append(c.done("unsafe/%s/%s" % (ns, tv), False))
     return {"cases": cases, "exhaustive": tier != "quick", "dist": dict(dist),
-            "rule": "every truth function of <= %d variables (3+ variables: every %s) over six name sets (ASCII, x_i with x_10 < x_2, non-ASCII, long, and names equal or close to the export's own column name `result`) x all 16 input/output Boolean formattings + the default to_csv: exported text compared byte for byte with the model, re-import compared with the table itself (C17_round_trip) ; sparse functions of 5-10 (12) inputs (hundreds to thousands of data lines); the empty table; names that are not csv-safe (comma, quote, line break, BOM, Boolean spelling) compared with the model only; non-trivial = csv-safe names; distinct = (function, name set)" % (maxv, "fifth" if tier == "quick" else "third")}
+            "rule": "every truth function of <= %d variables (3+ variables: every %s) over six name sets (ASCII, x_i with x_10 < x_2, non-ASCII, long, and names equal or close to the export's own column name `result`) x all 16 input/output Boolean formattings + the default to_csv: exported text compared byte for byte with the model, re-import compared with the table itself (C17_round_trip) ; sparse functions of 5-10 (12) inputs (hundreds to thousands of data lines); tables that are the result of restriction, quantification, connectives and substitution; the empty table; names that are not csv-safe (comma, quote, line break, BOM, Boolean spelling) compared with the model only; non-trivial = csv-safe names; distinct = (function, name set)" % (maxv, "fifth" if tier == "quick" else "third")}
 
 
 def gen_C18(tier, rng):
